@@ -81,6 +81,12 @@ func ClearTimeout(timer *Timer) {
 
 func (t *Timer) Stop() {
 	t.mu.Lock()
+	if t.cancelled {
+		// already stopped: the runtime may report "stopped" a second time while
+		// a send is in flight, and only one goroutine is there to be woken
+		t.mu.Unlock()
+		return
+	}
 	t.cancelled = true
 	pending := t.timer.Stop()
 	t.mu.Unlock()
